@@ -244,7 +244,7 @@ def build_runtime_groups(chk):
                 oi = rng.choice([i for i in range(len(tpls)) if i != which])
                 on = rng.choice([1, 3, 40])
                 variants.append({"n": 0, "h": 0, "pb": 0, "hb": 0, "at": 0, "other": [oi, on, blen(PADS[0]) * on], "tpls": mk(0, "", "top", "", 0, (oi, on, PADS[0]))})
-            groups.append({"family": "runtime", "construct": cname, "plant": ptext, "which": which, "pline": pline + poff, "pstart": pline, "pkind": pkind,
+            groups.append({"family": "runtime", "construct": cname, "plant": ptext, "which": which, "pline": pline + poff, "pend": pline + ptext.count("\n"), "pstart": pline, "pkind": pkind,
                            "variants": variants})
     return groups
 
@@ -420,7 +420,7 @@ def build_lineending_groups(chk):
                 variants.append({"n": n if "\n" in nl else 0, "h": 0, "pb": n * blen(pad), "hb": 0, "at": 0, "where": "top", "pad": pad, "tpls": padded})
                 ws = rng.choice(WS_ALL)
                 groups.append({"family": "runtime", "construct": cname + (":crlf" if "\n" in nl else ":cr"), "plant": ptext, "which": which,
-                               "pline": pline, "pstart": pline, "pkind": pkind, "flags": ws | (api << 4), "variants": variants})
+                               "pline": pline, "pend": 1 + (pre + plant).count("\n"), "pstart": pline, "pkind": pkind, "flags": ws | (api << 4), "variants": variants})
     return groups
 
 
@@ -560,7 +560,7 @@ def check_group(g, outs):
             root = berrs[-1]
             # (the kind of the root cause is not part of the property: e.g. an unknown function inside a macro
             # is an InvalidOperation; only its location is checked)
-            if root["name"] != g["which"] or root["line"] != g["pline"]:
+            if root["name"] != g["which"] or not (g["pline"] <= root["line"] <= g.get("pend", g["pline"])):
                 fails.append(("planted in t%d line %d, root cause reported in t%d line %d" % (g["which"], g["pline"], root["name"], root["line"]), 0))
     # the shift relation
     for prof in (False, True):
@@ -713,6 +713,11 @@ def main():
         for rel in (False, True):
             o = tok["impl"][rel][i]
             if o and o[0] == 0:
+                o = list(o)
+                # a lexer-level error without any location (BadEscape from unescape(): the parser locates it on the
+                # last consumed token, checked in the pipeline run) is not judged here
+                if len(o) >= 6 and o[-6] == 1 and o[-4] == 0 and o[-3] == 0 and len(o) == 2 + 7 * o[1] + 6:
+                    o = o[:-6] + [0]
                 spec_in.append(c[1:] + o[1:]); spec_idx.append((i, rel))
     spec_out = prun(model_cmd("c14-spec-tok"), spec_in)
     tok_spec_fail = [(i, rel, so) for (i, rel), so in zip(spec_idx, spec_out) if so != [1]]
